@@ -26,7 +26,7 @@ WORKERS = int(os.environ.get("VERIF_WORKERS", "0") or 0) or vlib.NCPU
 NPROC = max(2, min(8, (int(os.environ.get("VERIF_WORKERS", "0") or 0) or vlib.NCPU // 2)))
 
 INV_MAIN = ("CodeAgreesResolve CodeAgreesStages CodeAgreesMaps NearerWins UserOverVarsOverDefaults EmptyIsDefinition "
-            "DefinedIffResolved StageEnds StageBlind LocalRanksAsVars IncludeIsALevel StoreWithinOwnKind")
+            "DefinedIffResolved StageEnds StageBlind LocalRanksAsVars IncludeIsALevel StoreWithinOwnKind RuntimeWriteIsLocal")
 
 
 def _b(x):
@@ -101,7 +101,7 @@ def validate(ctx, trace_file, nlines):
 def gen_catalogues(ctx, gend, inc_levels=()):
     """TLC evaluates the catalogues of VarStackGen for depth gend (the plain ones, or - inc_levels given - the ones with an
     include role at these levels); returns {family: [case, ...]}."""
-    fams = ("inc", "inctwo") if inc_levels else ("two", "it", "class")
+    fams = ("inc", "inctwo") if inc_levels else (("two", "it", "class", "rt") if gend == 2 else ("two", "it", "class"))
     files = {fam: ctx.path("gen", "%s_d%d.ndjson" % (fam, gend)) for fam in fams}
     r = ctx.tlc("VarStackGen", None, workers=1, cfg_text=cfg_gen(gend, inc_levels), timeout=300,
                 env={"GEN_" + fam.upper(): f for fam, f in files.items()})
@@ -125,7 +125,7 @@ def pick(rng, cases, n):
 
 def canonical(c):
     return json.dumps([c["fam"], c["d"], c["c"], c.get("o") or [], c.get("ref") or [], c.get("it", 0), c.get("cc") or [0, 0],
-                       c.get("inc", 0)], separators=(",", ":"))
+                       c.get("inc", 0), c.get("rt")], separators=(",", ":"))
 
 
 def pattern(c):
@@ -146,6 +146,8 @@ def pattern(c):
         s += " it:%d" % c["it"]
     if c.get("inc"):
         s += " include:%d" % c["inc"]
+    if c.get("rt"):
+        s += " write:%s k on %s%d of instance %d" % (c["rt"]["op"], c["rt"]["tv"], c["rt"]["tl"], c["rt"]["w"])
     if c.get("cc") and c["cc"] != [0, 0]:
         s += " class:" + "-eV"[c["cc"][0]] + "-eV"[c["cc"][1]]
     return s
@@ -158,10 +160,19 @@ ROLE = {"E": "environment", "A": "aggregator", "T": "task role", "C": "call role
         "B": "aggregator inside the sub-workflow"}
 
 
+def role_name(v):
+    if isinstance(v, str) and len(v) == 2 and v[1] in "12":    # "A2": variant + iterator instance
+        return "%s (iterator instance %s)" % (ROLE.get(v[0], v[0]), v[1])
+    return ROLE.get(v, v)
+
+
 def field_name(inv, variant, j):
     """Name of position j of a recorded role (see spec/VarStackTrace.tla ExpectedRecord)."""
     if not isinstance(j, int):
         return str(j)
+    if inv in ("RuntimeWriteLocal", "CallReturnLocal"):
+        return {5: "ConsolidatedVarStack after the runtime write", 6: "ConsolidatedVarMaps user vars after the runtime write",
+                7: "user var `ret` (return of the call made on the instance-1 sibling)"}.get(j, "field %d" % j)
     if inv == "ClassBelowWorkflow":
         return ["command value", "argument", "env", "property"][j - 1]
     if variant == "E":
@@ -180,7 +191,12 @@ def field_name(inv, variant, j):
     return names[j - 13] if 0 <= j - 13 < len(names) else "field %d" % j
 
 
-def run(ctx):
+def replay(ctx, robj):
+    """./check C14 --replay <file>: run the recorded case alone on the real code and validate it."""
+    run(ctx, replay_case=robj["scenario"])
+
+
+def run(ctx, replay_case=None):
     quick = ctx.tier == "quick"
     rng = random.Random(ctx.seed * 1000003 + (0 if quick else 1))
     ctx.assumptions += [
@@ -197,16 +213,14 @@ def run(ctx):
         "an include role is two levels: its own defaults/vars/user vars, then the root of the sub-workflow it loads (served from "
         "memory by VerifVSLoadSubworkflowFunc, the same steps as the loadSubworkflow closure of workflow.Load); roles inside the "
         "sub-workflow get no user vars of their own (it does not exist before the load)",
+        "runtime writes are one Role.SetRuntimeVar / DeleteRuntimeVar (what plugins call) or one real callable.Call.Call() with a "
+        "`return` variable, made single-threaded after the load, on one of the two roles an iterator generated",
         "the whole-core path (TaskInfo.Data, CONFIGURE properties over the wire) is not exercised here",
     ]
     ctx.rule = ("case = an assignment of {absent, empty, value} to the 3 kinds x (d+1) levels of key k [+ second key with a template "
-                "reference, iterator level, include-role level, task-class cells]; distinct = distinct assignments; non-trivial = at least one cell defined; "
+                "reference, iterator level, include-role level, task-class cells, runtime write on one of two generated instances]; distinct = distinct assignments; non-trivial = at least one cell defined; "
                 "every case is built as a real workflow and every role on the path is observed")
 
-    replay_case = None
-    if ctx.replay:
-        with open(ctx.replay) as fh:
-            replay_case = json.load(fh)["replay"]["scenario"]
 
     # 1. the model: declarative precedence = operational code model, on every path (runs while the cases are driven, see 3.)
     def check_model():
@@ -258,6 +272,8 @@ def run(ctx):
         cases += pick(rng, cat2["two"], 1000 if quick else None)
         cases += pick(rng, cat2["it"], 600 if quick else None)
         cases += cat2["class"]
+        # runtime writes (SetRuntimeVar / DeleteRuntimeVar, a call's return) on one of two roles generated by an iterator
+        cases += pick(rng, cat2["rt"], 300 if quick else 3000)
         # include roles: plain, with own defaults/vars/user vars, generated by an iterator; leaves below the sub-workflow root
         cati = gen_catalogues(ctx, 4, (2,) if quick else (2, 3))
         ctx.extra["catalogues"]["d4-include"] = {k: len(v) for k, v in cati.items()}
@@ -271,7 +287,9 @@ def run(ctx):
             cases += pick(rng, cat3["class"], 1000)
     for i, c in enumerate(cases):
         c["id"] = i + 1
-        c["conc"] = rng.random() < 0.5       # concurrent / sequential template processing of the children
+        # concurrent / sequential template processing of the children (two-instance cases: sequential, so that a role
+        # sharing state with its sibling shows as a wrong value, not as a data race)
+        c["conc"] = rng.random() < 0.5 and not c.get("rt")
         c["pub"] = rng.random() < 0.3        # defined defaults/vars cells partly in the !public mapping form
         if not c.get("o"):
             c.pop("o", None)
@@ -361,7 +379,7 @@ def run(ctx):
         seen_v.add(sig)
         vd = {"inv": inv, "fam": c.get("fam"), "pattern": pattern(c) if c else "?", "d": c.get("d"), "detail": detail}
         if isinstance(detail, list) and len(detail) >= 5:
-            vd.update({"level": detail[0], "role": ROLE.get(detail[1], detail[1]), "field": field_name(inv, detail[1], detail[2]),
+            vd.update({"level": detail[0], "role": role_name(detail[1]), "field": field_name(inv, detail[1], detail[2]),
                        "got": detail[3], "expected": detail[4]})
         ctx.add_violation(vd, replay_obj={"scenario": c, "trace": [x for x in lines if x["scn"] == scn]})
     ctx.extra["viol_records"] = total
